@@ -228,6 +228,14 @@ def run_property(prop, rules_module, root, tier, replay=None, quiet=False, write
     return code
 
 
+def _idioms_note():
+    try:
+        from rules.common import IDIOMS_NOTE
+        return IDIOMS_NOTE
+    except Exception:
+        return ""
+
+
 def make_evidence(prop, rules_module, ctx, tier, seed, wall, unknown, reported_known):
     obs = ctx.obligations
     distinct = len({o.key for o in obs if o.nontrivial})
@@ -239,7 +247,7 @@ def make_evidence(prop, rules_module, ctx, tier, seed, wall, unknown, reported_k
             seen_rules.add(o.rule)
     samples = samples[:40]
     cov = {
-        "explanation": rules_module.EXPLANATION,
+        "explanation": rules_module.EXPLANATION + _idioms_note(),
         "obligations": len(obs),
         "discharged": sum(1 for o in obs if o.verdict == HOLDS),
         "evaluations": len(obs),
